@@ -586,7 +586,10 @@ class IRGenerator:
                 raise InvalidSpec(
                     'Annotations cannot be applied to parameters of annotation types',
                     param.lineno, param.path)
-            param_type = self._resolve_type(env, param.type_ref, True)
+            # Only primitive types are accepted below, so there is no need
+            # to populate a user-defined type here (its annotations have no
+            # annotation types yet at this point).
+            param_type = self._resolve_type(env, param.type_ref)
             dt, nullable_dt = unwrap_nullable(param_type)
 
             if isinstance(dt, Void):
